@@ -409,9 +409,14 @@ Section Units.
       + exists c. split; auto. rewrite Em. discriminate.
   Qed.
 
-  Lemma get_cached_DIE_ok s cu c off e : Inv F s -> nth_error (cus s) cu = Some c ->
+  (* the object belongs to the unit object [cu] *)
+  Definition die_in (s : state) (id cu : nat) (o : Z) : Prop :=
+    exists d, nth_error (dies s) id = Some d /\ d_cu d = cu /\ d_off d = o.
+
+  Lemma get_cached_DIE_ok' s cu c off e : Inv F s -> nth_error (cus s) cu = Some c ->
     entry_at F (c_off c) off = Some e ->
-    exists s' id, get_cached_DIE P cu off s = (s', Ok id) /\ Inv F s' /\ ext s s' /\ die_at s' id (c_off c) off.
+    exists s' id, get_cached_DIE P cu off s = (s', Ok id) /\ Inv F s' /\ ext s s' /\ die_at s' id (c_off c) off /\
+                  die_in s' id cu off.
   Proof.
     intros HI Hc He. unfold get_cached_DIE.
     destruct (get_top_DIE_ok s cu c HI Hc) as (s1 & top & E1 & HI1 & X1 & _ & (c1 & Hc1 & Hne)).
@@ -438,7 +443,7 @@ Section Units.
       rewrite (py_index_pred _ _ _ Hi1 Hd). unfold lift.
       exists s1, did. split; [reflexivity|]. split; [exact HI1|]. split; [exact X1'|].
       destruct (Hobj off did (nth_combine_in _ _ _ _ _ Hk Hd)) as (d & Hdd & E2 & E3).
-      exists d, c1. rewrite E2. repeat split; auto.
+      split; [exists d, c1; rewrite E2; repeat split; auto|]. exists d. auto.
     - assert (Hnin : ~ In off (c_diemap c1)).
       { intros Hin. destruct (count_le_hit off _ Hso Hin) as [_ Hn]. rewrite <- Hi in Hn.
         apply (nth_error_nth_default _ _ 0) in Hk. congruence. }
@@ -454,7 +459,15 @@ Section Units.
       rewrite Sm in HI3, X3, Hat. fold i in HI3, X3, Hat.
       eexists _, _. split; [reflexivity|]. split; [exact HI3|].
       split; [eapply ext_trans; [exact X1'|eapply ext_trans; [exact X2|exact X3]]|].
-      rewrite <- Eo, <- So. exact Hat.
+      split; [rewrite <- Eo, <- So; exact Hat|].
+      eexists. scbn. split; [apply nth_error_snoc_new|]. split; reflexivity.
+  Qed.
+
+  Lemma get_cached_DIE_ok s cu c off e : Inv F s -> nth_error (cus s) cu = Some c ->
+    entry_at F (c_off c) off = Some e ->
+    exists s' id, get_cached_DIE P cu off s = (s', Ok id) /\ Inv F s' /\ ext s s' /\ die_at s' id (c_off c) off.
+  Proof.
+    intros HI Hc He. destruct (get_cached_DIE_ok' s cu c off e HI Hc He) as (s' & id & A & B & C & D & _). eauto 8.
   Qed.
 
   (* CompileUnit.get_DIE_from_refaddr on the offset of an entry of the unit *)
